@@ -317,9 +317,39 @@ func (m *Model) Proto() *openfgav1.AuthorizationModel {
 // maps in the protobuf model, so they are sorted by name here; types and restrictions keep order)
 
 func RewriteFromUserset(u *openfgav1.Userset) *Rewrite {
+	return rewriteFromUserset(u, map[*openfgav1.Userset]bool{})
+}
+
+// CyclicModel reports the first relation whose rewrite tree is not a tree (a node is its own descendant); walking such
+// a model with the protobuf library overflows the stack, so checks ask before they compare, clone or marshal a model the
+// library returned.
+func CyclicModel(pm *openfgav1.AuthorizationModel) string {
+	for _, td := range pm.GetTypeDefinitions() {
+		for n, u := range td.GetRelations() {
+			cyc := false
+			rewriteFromUserset(u, map[*openfgav1.Userset]bool{}).Walk(func(x *Rewrite, _ int) {
+				if strings.HasPrefix(x.Kind, "cyclic!") {
+					cyc = true
+				}
+			})
+			if cyc {
+				return td.GetType() + "#" + n
+			}
+		}
+	}
+	return ""
+}
+
+func rewriteFromUserset(u *openfgav1.Userset, path map[*openfgav1.Userset]bool) *Rewrite {
 	if u == nil {
 		return &Rewrite{Kind: "nil"}
 	}
+	if path[u] {
+		return &Rewrite{Kind: "cyclic! (a rewrite node is its own descendant)"}
+	}
+	path[u] = true
+	defer delete(path, u)
+	RewriteFromUserset := func(c *openfgav1.Userset) *Rewrite { return rewriteFromUserset(c, path) }
 	switch x := u.GetUserset().(type) {
 	case *openfgav1.Userset_This:
 		return &Rewrite{Kind: This}
